@@ -518,7 +518,10 @@ type c13Diff struct {
 	own   bool // the leaf (or an enclosing field) is read from a format-specific tag in this format
 	elem  bool // inside a slice-of-struct element
 	ns    bool
-	text  string
+	// lookalike: the field (or an enclosing one) also carries a tag of another
+	// library whose key ends in this format's name, and no real format tag
+	lookalike bool
+	text      string
 }
 
 type c13Matcher struct {
@@ -532,12 +535,16 @@ type c13Matcher struct {
 	// embedded struct members present in the document, and how many of them
 	// are keyed by their own Go name in another case
 	embSeen, embFoldSeen int64
-	kinds                map[string]struct{}
+	// present fields that carry a look-alike tag of another library
+	// (geojson, goyaml, ...) and no real tag of that format
+	foreignSeen int64
+	inLookalike bool // while matching below a field with a look-alike tag for m.fm
+	kinds       map[string]struct{}
 }
 
 func (m *c13Matcher) add(class, path string, n *c13Node, own, elem, ns bool, text string) {
 	if len(m.diffs) < 8 {
-		m.diffs = append(m.diffs, c13Diff{class: class, path: path, sig: n.sig, own: own, elem: elem, ns: ns, text: text})
+		m.diffs = append(m.diffs, c13Diff{class: class, path: path, sig: n.sig, own: own, elem: elem, ns: ns, lookalike: m.inLookalike, text: text})
 	}
 }
 
@@ -824,13 +831,19 @@ func (m *c13Matcher) matchFields(n *c13Node, want *c13Val, got reflect.Value, ra
 				m.add("shape", path+"."+f.name, f.node, own, elem, false, "field missing from the value")
 				continue
 			}
+			if f.foreignAlone && want.field(f) != nil {
+				m.foreignSeen++
+			}
 			if f.embedded && want.field(f) != nil {
 				m.embSeen++
 				if strings.EqualFold(f.keys[m.fm], f.name) {
 					m.embFoldSeen++
 				}
 			}
+			prev := m.inLookalike
+			m.inLookalike = prev || f.lookalikeFor(m.fm)
 			m.match(f.node, want.field(f), fv, raw, path+"."+f.name, own || f.hasOwn(m.fm), elem)
+			m.inLookalike = prev
 		}
 	}
 }
